@@ -156,3 +156,46 @@ def cmodule(text):
     except (SyntaxError, ValueError, RecursionError):
         return "None"
     return "(Some %s)" % cblock(tree.body)
+
+
+# ---------------------------------------------------------------- layout for Model/Completion.v
+def _cdec(d):
+    return "(mk_cdec %s %d %d)" % (cexpr(d), d.lineno, d.end_lineno)
+
+
+def _cmark(e):
+    if isinstance(e, ast.Call):
+        return "(CMCall %s %d %d)" % (cexpr(e.func), e.lineno, e.end_lineno)
+    if isinstance(e, (ast.List, ast.Tuple)):
+        return "(CMSeq %s)" % clist([_cmark(x) for x in e.elts])
+    return "CMOther"
+
+
+def clayout_stmt(s):
+    if isinstance(s, (ast.FunctionDef, ast.AsyncFunctionDef)):
+        a = s.args
+        params = [x.arg for x in list(a.posonlyargs) + list(a.args) + list(a.kwonlyargs)]
+        ends = [(x.end_lineno, x.end_col_offset) for x in list(a.posonlyargs) + list(a.args) + list(a.kwonlyargs)
+                + ([a.vararg] if a.vararg else []) + ([a.kwarg] if a.kwarg else [])]
+        if s.returns is not None:
+            ends.append((s.returns.end_lineno, s.returns.end_col_offset))
+        sig_last = max(ends)[0] if ends else None
+        body_first = s.body[0].lineno if s.body else None
+        return "(CFun %s %s %s %s %s %d %d)" % (cstr(s.name), clist([_cdec(d) for d in s.decorator_list]), clist([cstr(p) for p in params]),
+                                             copt(sig_last, str), copt(body_first, str), s.lineno, s.end_lineno)
+    if isinstance(s, ast.ClassDef):
+        return "(CClass %s %s)" % (clist([_cdec(d) for d in s.decorator_list]), clist([clayout_stmt(x) for x in s.body]))
+    if isinstance(s, ast.Assign) and any(isinstance(t, ast.Name) and t.id == "pytestmark" for t in s.targets):
+        return "(CMark (Some %s) %d %d)" % (_cmark(s.value), s.lineno, s.end_lineno)
+    if isinstance(s, ast.AnnAssign) and isinstance(s.target, ast.Name) and s.target.id == "pytestmark":
+        return "(CMark %s %d %d)" % ("None" if s.value is None else "(Some %s)" % _cmark(s.value), s.lineno, s.end_lineno)
+    return "COther"
+
+
+def clayout(text):
+    """-> Gallina [option (list cstmt)]"""
+    try:
+        tree = ast.parse(text)
+    except (SyntaxError, ValueError, RecursionError):
+        return "None"
+    return "(Some %s)" % clist([clayout_stmt(s) for s in tree.body])
